@@ -310,6 +310,16 @@ def _roots_of_tree(t, acc):
         acc.append(t[1].a); acc.append(t[1].b)
         _roots_of_tree(t[2], acc); _roots_of_tree(t[3], acc)
 
+def _balanced(x):
+    """True if the outer parentheses of x match each other"""
+    depth = 0
+    for i, ch in enumerate(x):
+        if ch == '(': depth += 1
+        elif ch == ')':
+            depth -= 1
+            if depth == 0 and i != len(x) - 1: return False
+    return depth == 0
+
 class Emitter:
     def __init__(self, func):
         self.func = func
@@ -360,9 +370,14 @@ class Emitter:
         if isinstance(v, bool): return 'true' if v else 'false'
         if isinstance(v, Sym): return self.term(v, lets)
         if isinstance(v, np.ndarray):
+            def mk(items):
+                n = len(items)
+                if n in (1, 2, 3, 4, 6):
+                    return f"(v{n} " + ' '.join(x if x.replace('_', 'a').isalnum() else (x if x.startswith('(') and x.endswith(')') and _balanced(x) else f"({x})") for x in items) + ")"
+                return '![' + ', '.join(items) + ']'
             if v.ndim == 1:
-                return '![' + ', '.join(self.value(x, lets) for x in v) + ']'
-            return '![' + ', '.join('![' + ', '.join(self.value(x, lets) for x in row) + ']' for row in v) + ']'
+                return mk([self.value(x, lets) for x in v])
+            return mk([mk([self.value(x, lets) for x in row]) for row in v])
         if isinstance(v, tuple):
             return '(' + ', '.join(self.value(x, lets) for x in v) + ')'
         raise Untranslatable('value')
